@@ -72,10 +72,8 @@ func (s resendState) FixMsgIn(session *session, msg *Message) (nextState session
 		return nextResendState
 	}
 
-	if s.resendRangeEnd >= session.store.NextTargetMsgSeqNum() {
-		return s
-	}
-
+	// Deliver every kept message that is now next in sequence. A message of the requested range may have
+	// been kept too, if it arrived ahead of its predecessor.
 	for len(s.messageStash) > 0 {
 		targetSeqNum := session.store.NextTargetMsgSeqNum()
 		msg, ok := s.messageStash[targetSeqNum]
@@ -89,6 +87,10 @@ func (s resendState) FixMsgIn(session *session, msg *Message) (nextState session
 		if !nextState.IsLoggedOn() {
 			return
 		}
+	}
+
+	if s.resendRangeEnd >= session.store.NextTargetMsgSeqNum() {
+		return s
 	}
 
 	return
